@@ -7,6 +7,9 @@ method it mirrors is compared, as ast.unparse text without docstrings, with the 
 text (harness/tr/_c07_shapes.py); anything else is a ShapeError (fail-closed).  Three defects have two
 recognised shapes each, selected by a boolean the model takes as a parameter:
 
+  c07_sd_sorted       = true <-> SelfDependencyEliminator: `for var_name in sorted(read_and_written)`
+                                 (C15's repair, /repo b086eee) instead of iterating the frozenset
+
   c07_seed_node_vars  = true <-> get_var_name_generator(statements, phase_ast) also adds
                                  get_node_variables(phase_ast)        (fixes/C07_seed_node_names.patch)
   c07_fci_passes_cond = true <-> isolate_call: super_method(expr, base_condition, base_deps, sub_extra_deps)
@@ -156,6 +159,7 @@ def facts(repo):
             idx[unit] = (EXPECT[rel + "::" + unit].index(None), len(EXPECT[rel + "::" + unit]))
     two = sorted(u for u, (_, n) in idx.items() if n > 1)
     expected_two = ["ExprIfThenElseExpander.map_if", "ExpressionFunctionCallIsolator.isolate_call",
+                    "SelfDependencyEliminator.map_statement",
                     "apply_statement_rewriter", "get_node_variables", "get_var_name_generator"]
     if two != expected_two:
         raise ShapeError("shape table out of date: units with two shapes are %r" % two)
@@ -164,6 +168,7 @@ def facts(repo):
         raise ShapeError("transform.py: get_var_name_generator / get_node_variables / apply_statement_rewriter "
                          "are a mixture of the two recognised shapes")
     return {"seed_node_vars": seed == {1},
+            "sd_sorted": idx["SelfDependencyEliminator.map_statement"][0] == 1,
             "fci_passes_cond": idx["ExpressionFunctionCallIsolator.isolate_call"][0] == 1,
             "ite_flag_first": idx["ExprIfThenElseExpander.map_if"][0] == 1,
             "order": pass_order(repo),
@@ -175,6 +180,8 @@ def generate(repo):
     out = [HEADER % "c07"]
     out.append("(* dagrt/codegen/transform.py: get_var_name_generator also seeds loop counters, guards, loop bounds *)")
     out.append("Definition c07_seed_node_vars : bool := %s." % coq_bool(f["seed_node_vars"]))
+    out.append("(* SelfDependencyEliminator iterates over sorted(read_and_written) *)")
+    out.append("Definition c07_sd_sorted : bool := %s." % coq_bool(f["sd_sorted"]))
     out.append("(* isolate_call hands base_condition on to the inherited mapper method *)")
     out.append("Definition c07_fci_passes_cond : bool := %s." % coq_bool(f["fci_passes_cond"]))
     out.append("(* ExprIfThenElseExpander.map_if emits the flag assignment before the statements of the branches *)")
